@@ -11,6 +11,36 @@ CHECKS = {
          "Every operation of the ordered map is applied from every slot layout reachable within a bounded history length (three keys, stale tombstone keys included) and in long random histories over 4/16/200 keys that cross the compaction threshold thousands of times; after every operation all observers (Len, IsZero, Get, Contains, Range incl. early exit and renaming callbacks, ToMap, ToMapRecursive, both encoders re-read with independent readers, Equal against an independently built twin, perturbed twins and a pool of reached states) are compared with a list-of-pairs model and the index/slot invariant hook is evaluated. Held on the executions observed; not a proof.",
          "Trusts the list-of-pairs model, encoding/json's token reader and yaml.v3's Node reader as independent readers; values are opaque to the map so layouts, not values, are enumerated.",
          "DESIGN.md §2 C05"),
+ "C10": ("exploration",
+         "reference-model monitor: sequential env-fold model vs Interpolate over generated env blocks x flag x five caller environments (incl. the internal env through a hook)",
+         "Random env blocks (chains, forward references, names built by expansion and colliding, empty names, runtime overlaps, failing expansions) are interpolated by the real code and by a sequential fold model that rewrites a list-of-pairs block in place and feeds a model environment; block order and contents, a probe string in a step and the caller's environment (harness case-sensitive/-insensitive, the library's internal env in both modes, nil) must agree for both settings of the runtime-precedence flag. Held on the executions observed.",
+         "Trusts github.com/buildkite/interpolate (a dependency, not code under test) for single-string expansion and the list-of-pairs model; state after a failed expansion is not compared.",
+         "DESIGN.md §2 C10"),
+ "C11": ("exploration",
+         "reference-model monitor: matrix-specification predicate vs InterpolateMatrixPermutation, bounded-exhaustive small scope + random, twin/JSON before-after monitor for rejected permutations",
+         "Every matrix of a small scope (anonymous/1/2/3 dimensions, value subsets of {x,y}, 0-2 adjustments from all tuples over {x,y,z} plus malformed shapes, four skip kinds) is checked against every candidate permutation incl. wrong-arity and unknown-dimension ones (about 2.4 million pairs in the quick tier), then random larger matrices; acceptance must equal the specification predicate written in the harness and a rejected permutation must leave the step deep-equal to a twin and JSON-identical. A sample of matrices is built through Parse. Held on the executions observed.",
+         "Trusts the predicate as a faithful reading of the property; null dimension lists are not generated; which error is returned is not checked.",
+         "DESIGN.md §2 C11"),
+ "C12": ("exploration",
+         "reference-model monitor: hand-written single-pass token scanner mapped over a step specification vs InterpolateMatrixPermutation",
+         "Command steps are built from a specification that lists every string; tokens with inner whitespace, near misses, embedded tokens and plain text are planted in every in-scope position class (command, label, plugin sources, plugin config keys/values at depth incl. maps beyond 8 entries whose keys get renamed, env values, extra keys/values) and in the out-of-scope ones (env names, key, matrix, signature). The expected step is the specification mapped through an independent scanner; a token for a missing dimension must make the call fail; an empty permutation must change nothing. Held on the executions observed.",
+         "Trusts the scanner as the reading of the token grammar (ASCII whitespace inside braces); cache scope and atomicity on failure are not asserted.",
+         "DESIGN.md §2 C12"),
+ "C15": ("exploration",
+         "exhaustive rule-table monitor: all key subsets x type values x extra-key variants parsed through Parse in two positions and two formats",
+         "The documented rule table is written out in the harness and compared with the dynamic type of the parsed step, and with the sentinel error inside the warning, for all 1024 subsets of the ten kind-determining keys x 14 type values (absent, documented names, unknown/empty/case variants) x 5 extra-key variants (incl. the empty key and alias-named keys), shuffled key order, at top level and inside a group, as JSON and as YAML; plus all scalar words and a sample of non-words. The table part is a complete enumeration.",
+         "A group whose child falls back to unknown may itself be kept as one verbatim unknown step (accepted when the warning names the cause); non-string type values are hard errors by design and not in the table.",
+         "DESIGN.md §2 C15"),
+ "C17": ("exploration",
+         "reference-model monitor: sources generated from the documented forms with the canonical form known by construction; idempotence and marshalled key on all short strings",
+         "Sources are generated form by form (name, org/name with git-legal refs, paths, scheme URLs, scp-style, drive letters, three or more segments, canonical) so the expected canonical source is known by construction; FullSource must equal it, be idempotent, not modify the plugin, and be the key of both marshalled forms; every string up to length 5/6 over a reduced alphabet (refs restricted to the property's ref language) is checked for idempotence and marshalled key. Held on the executions observed.",
+         "Percent-encoded sources and refs with empty or dot-only components are outside the property and filtered out.",
+         "DESIGN.md §2 C17"),
+ "C18": ("exploration",
+         "exhaustive allow-list table monitor + generated key pairs cross-verification matrix + LoadKey over generated key-set files",
+         "Validate is run on the complete table of key types (RSA, EC on three curves, OKP, oct; private and public) x every algorithm value the JOSE library registers (signature, key-encryption, content-encryption), unknown/empty/case-variant names and a missing algorithm, plus structurally invalid keys; generated pairs for the three approved algorithms must validate and verify only on the diagonal of the sign/verify matrix; LoadKey is driven with random key-set files (0-4 members, valid/invalid, unique/duplicate/missing ids) x requested ids and malformed inputs, identity decided by thumbprint. The table is a complete enumeration.",
+         "Trusts the JOSE library for signature verification itself and for key.Validate(); which member wins for duplicated ids is not asserted.",
+         "DESIGN.md §2 C18"),
 }
 
 NOT_YET = {
